@@ -71,6 +71,7 @@ class HistogramND(HistogramBase):
 
         # Missed values
         missed_array = np.asarray(missed).reshape(1)
+        self._check_missed(missed_array)
         if self.dtype.kind in "iu" and np.isnan(missed_array.astype(float)).any():
             # An "unknown" (NaN) marker cannot be stored in an integer array (same as in 1D)
             self._missed = missed_array.astype(float)
